@@ -44,6 +44,11 @@ pub fn profile_for(prop: &str, thorough: bool) -> Profile {
     let mut p = Profile { thorough, ..Profile::default() };
     match prop {
         "C03" => {
+            // the real history also contains failed calls, so that later steps are enumerated from
+            // states reached through fault *sequences*
+            p.class_b_permille = 150;
+            p.kernel_fault_permille = 100;
+            p.class_a_permille = 100;
             p.preset_incident_permille = 40;
             p.min_len = 3;
             p.max_len = if thorough { 14 } else { 9 };
